@@ -277,11 +277,21 @@ def run_guarantee(case):
             inst = pick(obj)
             res["dispatch"] = qual(type(inst)) if isinstance(inst, _STIXBase) else type(inst).__name__
             res["expected_class"] = qual(cls)
+            if o.get("extname"):
+                # extension_name=: every instance carries extensions[<name>] = <the class registered on the side>()
+                from stix2 import registry
+                side = registry.class_for_type(o["extname"], ver, "extensions")
+                got = obj.get("extensions", {}).get(o["extname"]) if hasattr(obj, "get") else None
+                res["side_instance"] = {"registered": None if side is None else qual(side),
+                                        "found": None if got is None else (qual(type(got)) if isinstance(got, _STIXBase) else type(got).__name__),
+                                        "extension_type": None if got is None else got.get("extension_type")}
             try:
                 text = obj.serialize()
                 back = parse(json.loads(text))
                 res["roundtrip_equal"] = bool(back == obj)
-                res["roundtrip_text_equal"] = back.serialize() == text
+                # the same JSON VALUE (member order is not part of it: with extension_name= the side extension is
+                # appended after construction, on re-parsing it sits at the position of the `extensions` property)
+                res["roundtrip_text_equal"] = json.loads(back.serialize()) == json.loads(text)
                 res["values_kept"] = all(json.loads(text_v) == v for text_v, v in
                                          ((json.dumps(json.loads(pick(back).serialize())[k]), v) for k, v in vals.items()))
             except Exception as e:  # noqa: BLE001
